@@ -307,7 +307,8 @@ def _tests_newline_of(ce, s):
 
 
 def _text_rule(prog, chk, L, g, f, node, text, fns, st):
-    text = SX.strip(text)
+    from ..kcanon import Canon
+    text = SX.strip(Canon(prog, f).expand(SX.strip(text)))
     # (a) literal spelling in scanToken
     lit = None
     if text.get('k') == 'str':
@@ -364,7 +365,7 @@ def _text_rule(prog, chk, L, g, f, node, text, fns, st):
     pre = 1 if f.short != 'scanToken' else 0
     env = {}
     for d in g.nodes:
-        if d.kind == 'decl' and d.e.get('type') in ('unsigned long', 'size_t') and SX.is_node(d.e.get('init')):
+        if d.kind == 'decl' and (d.e.get('type') or '').replace('const ', '') in ('unsigned long', 'size_t', 'std::size_t') and SX.is_node(d.e.get('init')):
             # declared before any consumption of this function?
             before = g.reachable([d], forward=False)
             consumed_before = any(g.nodes[i].kind == 'call' and L.callee_of(g.nodes[i].e) is not None and L.callee_of(g.nodes[i].e).key in L.moves for i in before)
